@@ -187,9 +187,16 @@ def build_funsor(case):
     sum_op, prod_op = (ops.add, ops.mul) if sr == "add-mul" else (ops.logaddexp, ops.add)
     sz = case["sz"]
     leaves = {}
+    pn = case.get("cat_part_name")
+    in_cat = {}
+    if pn is not None:
+        for t in subterms(case["expr"]):
+            if t[0] == "cat":
+                for lid in t[2]:
+                    in_cat[lid] = t[1]
     for lid, l in case["leaves"].items():
         leaves[lid] = Tensor(to_impl_data(l["data"], sr),
-                             OrderedDict((vname(n), Bint[s]) for n, s in l["axes"]))
+                             OrderedDict((pn if in_cat.get(lid) == n else vname(n), Bint[s]) for n, s in l["axes"]))
 
     def ixf(ix, lsize):
         t = ix[0]
@@ -748,10 +755,17 @@ def violated(case):
         elif t == "cat":
             if case.get("cat_part_name") is not None:
                 out.add("cat-part-name")
-    if case.get("opt"):
-        bound = [v for e in subterms(root) if e[0] in ("sum", "prod") for v in e[1]]
-        if len(bound) != len(set(bound)):
-            out.add("opt-rebinding")
+    bound = [v for e in subterms(root) if e[0] in ("sum", "prod") for v in e[1]]
+    rebound = {v for v in bound if bound.count(v) > 1}
+    if case.get("opt") and rebound:
+        out.add("opt-rebinding")
+    # the same pure renaming of the same leaf under two different binders of one name: the two Subs
+    # nodes have the same un-mangled eager value (renaming shares the data array) = the same tape key
+    ren = [(e[1], tuple(e[2])) for e in subterms(root)
+           if e[0] == "acc" and e[2] and all(ix[0] == "var" for _, ix in e[2])]
+    for a in set(ren):
+        if ren.count(a) > 1 and any(ix[1] in rebound for _, ix in a[1]):
+            out.add("tape-key-collision")
     return out
 
 
@@ -866,6 +880,25 @@ def check_case(ctx, case, use_driver=True, gate=True, label="clean"):
             case2, keys = case_from_lazy(case, r)
         except Beyond as e:
             ctx.count(f"{label}:beyond-model:{e}")
+            if gate:
+                return dict(status="beyond")
+            # dedicated streams: leaves that the original term only reads directly are still leaves of the
+            # optimizer's output (same hash-consed tensor); compare those with the derivative of the original
+            direct = {lid for lid in case["leaves"]
+                      if all(not t[2] for t in subterms(case["expr"]) if t[0] == "acc" and t[1] == lid)
+                      and not any(t[0] == "cat" and lid in t[2] for t in subterms(case["expr"]))}
+            for lid in sorted(direct):
+                axes = case["leaves"][lid]["axes"]
+                try:
+                    got = marginal_table(r["bwd"][r["leaves"][lid]], axes, F, sz, sr)
+                except (KeyError, ValueError):
+                    return dict(status="wrong", what="adjoint-inputs")
+                if got is None:
+                    continue
+                for idx in itertools.product(*[range(s_) for _, s_ in axes]):
+                    w = grads[lid].get(idx, Fraction(0))
+                    if not same_num(got[idx], w, tol):
+                        return dict(status="wrong", what="adjoint", lid=lid, idx=idx, want=w, got=got[idx], model_fs=None)
             return dict(status="beyond")
         v2 = violated(case2) - {"opt-rebinding"}
         if v2:
@@ -914,6 +947,11 @@ def check_case(ctx, case, use_driver=True, gate=True, label="clean"):
                 ctx.infra_errors.append(f"Lean model `backward` disagrees with its spec on a Good input: {case_wire(case2)[:400]}")
                 return dict(status="infra")
         g = r["bwd"][key]
+        pn = case.get("cat_part_name")
+        if pn is not None and isinstance(g, Tensor) and pn in g.inputs:
+            cv = [t[1] for t in subterms(case["expr"]) if t[0] == "cat" and lid in t[2]]
+            if cv and vname(cv[0]) not in g.inputs:
+                g = g(**{pn: vname(cv[0])})
         try:
             ids = input_ids(g)
             bad_inputs = not set(ids) <= set(names) | set(F)
@@ -999,6 +1037,10 @@ FINDINGS = {
     "cat-part-name": ("KF-adjoint-cat-part-name",
                       "adjoint_cat tests `part_name not in out_adj.inputs` (should be `name`) and slices by `name`: with "
                       "part_name != name every part receives the whole adjoint summed over the concatenated axis"),
+    "tape-key-collision": ("KF-adjoint-tape-key-collision",
+                           "AdjointTape keys adjoint_values by the un-mangled eager value: the same renaming x(i=k) of the "
+                           "same leaf under two different binders named k yields one key for two tape entries, and the "
+                           "accumulated adjoint is propagated twice, e.g. (sum_k x(i=k) y(k)) * (sum_k x(i=k) z(k))"),
     "opt-rebinding": ("KF-adjoint-unmangle-rebinding",
                       "after apply_optimizer hoists two reductions over the same base name into one Contraction, "
                       "AdjointTape.adjoint's un-mangling conflates the two binders"),
@@ -1024,6 +1066,21 @@ def canonical_plate_zero():
                 expr=("sum", [0], ("prod", [1], ("acc", 0, []))), sr="add-mul", opt=None)
 
 
+def gen_collision(rng):
+    """(sum_k x(i=k) y(k)) ⊗ (sum_k x(i=k) z(k)) with random sizes/data (i a private axis name)."""
+    n = rng.choice([1, 2, 3])
+    k = rng.randrange(NGLOB)
+    sz = {v: rng.choice([1, 2, 3]) for v in range(NGLOB)}
+    sz[k] = n
+    sz[4] = n
+    leaves = {0: dict(axes=[(4, n)], data=gen_data(rng, (n,))),
+              1: dict(axes=[(k, n)], data=gen_data(rng, (n,))),
+              2: dict(axes=[(k, n)], data=gen_data(rng, (n,)))}
+    x = ("acc", 0, [(4, ("var", k))])
+    e = ("mul", ("sum", [k], ("mul", x, ("acc", 1, []))), ("sum", [k], ("mul", x, ("acc", 2, []))))
+    return dict(sz=sz, leaves=leaves, expr=e, sr=rng.choice(["add-mul", "logaddexp-add"]), opt=None)
+
+
 def dedicated(ctx, stream, n):
     found = None
     tried = 0
@@ -1031,6 +1088,9 @@ def dedicated(ctx, stream, n):
     if stream == "plate-zero":
         cases.append(canonical_plate_zero())
     for _ in range(n):
+        if stream == "tape-key-collision":
+            cases.append(gen_collision(ctx.rng))
+            continue
         try:
             c = gen_case(ctx.rng, ctx.tier, stream=stream)
         except RuntimeError:
